@@ -87,9 +87,32 @@ impl Monitor for C01 {
         "cases = byte strings from the v1 workload (valid lines with distinct endpoints in every spelling, single-field faults, every line ending, lengths around 107, exhaustive token sequences and token edits, byte mutations, random bytes, multi-byte characters around CR), each parsed through try_from(&[u8]) and, when UTF-8, try_from(&str) / FromStr for Header and Addresses, and compared with the independent grammar oracle; a case is non-trivial unless the oracle rejects it for a wrong keyword or it has no CR and does not start with 'PROXY '; distinct = distinct input byte strings (64-bit hash)"
     }
     fn streams(&self, tier: Tier) -> Vec<StreamSpec> {
-        v1_streams(tier, 10_000)
+        let mut s = v1_streams(tier, 10_000);
+        if tier != Tier::Miri {
+            s.push(spec::engine::exhaustive("v1-huge", 12));
+        }
+        s
     }
     fn run_case(&self, stream: &str, idx: u64, seed: u64, rec: &mut Recorder) {
+        if stream == "v1-huge" {
+            // a well-formed line at the front of a buffer of 2 GiB .. 8 GiB (lazily zeroed)
+            if !spec::engine::huge_ok() {
+                return;
+            }
+            let mut rng = spec::rng::Rng::new(idx ^ seed.rotate_left(13));
+            let mut h = spec::v1gen::valid_ascii_body(&mut rng).into_bytes();
+            h.extend_from_slice(b"\r\n");
+            let size = spec::engine::HUGE_SIZES[idx as usize % spec::engine::HUGE_SIZES.len()];
+            let want = v1_bytes(&h);
+            rec.case(spec::rng::hash_bytes(&h) ^ size as u64, true);
+            rec.events(2);
+            match spec::engine::with_huge(&h, size, |x| (v1_bytes(x), auto_parse(x))) {
+                None => rec.class("skipped:huge-allocation-refused", || size.to_string()),
+                Some((g, a)) if g == want && want.is_ok() && matches!(&a, OA::V1(o) if o.is_ok()) => rec.class("oracle:line-in-a-multi-GiB-buffer", || format!("{} bytes", size)),
+                Some((g, a)) => rec.violation("wrongly-rejected:bytes", enc_case("v1", &h), "huge-buffer".into(), format!("line {:?} alone gives {}, at the front of a zero-filled buffer of {} bytes try_from(&[u8]) gives {} and HeaderResult::parse {}", show(&h, 80), want.class(), size, g.class(), a.class())),
+            }
+            return;
+        }
         let input = v1_case(stream, idx, seed);
         spec::sib::run_v1(&input, idx, 4, |input| judge(input, rec));
     }
